@@ -96,13 +96,13 @@ def annotate(rng, a, full=True):
         for f in ("ss", "sa", "pp"):
             v = getattr(a, f)
             if v and not any(v): setattr(a, f, None)
-        for _ in range(rng.choice([0, 0, 1, 3])): a.gf.append((rng.choice(["CC", "RN", "DR", "BM", "XX"]), text(40)))
-        tags = ["CSX", "XY", "Long_tag_thing"]
+        for _ in range(rng.choice([0, 0, 1, 3])): a.gf.append((rng.choice(["CC", "RN", "DR", "BM", "XX", "C", "LongGFtag"]), text(40)))
+        tags = rng.choice([["CSX", "XY", "Long_tag_thing"], ["C", "XY", "Long_tag_thing"], ["q"], ["CSX", "XY", "Long_tag_thing"]])
         for t in tags[:rng.choice([0, 0, 1, 2])]: a.gc.append((t, col("abcxyz.*")))
-        for t in ["OS", "LO"][:rng.choice([0, 0, 1, 2])]:
+        for t in rng.choice([["OS", "LO"], ["O", "LongGStag"], ["OS", "LO"]])[:rng.choice([0, 0, 1, 2])]:
             v = [(text(15) if rng.random() < 0.6 else None) for _ in range(n)]
             if any(v): a.gs.append((t, v))
-        for t in ["csa", "TM"][:rng.choice([0, 0, 1, 2])]:
+        for t in rng.choice([["csa", "TM"], ["c", "TM"], ["T"], ["csa", "TM"]])[:rng.choice([0, 0, 1, 2])]:
             v = [(col("abc.*") if rng.random() < 0.5 else None) for _ in range(n)]
             if any(v): a.gr.append((t, v))
         for _ in range(rng.choice([0, 0, 1, 2])): a.com.append(text(50))
@@ -281,7 +281,7 @@ def valid_file(rng, fmt, small=False):
 # ------------------------------------------------------------------------------------------------
 # structure-aware mutation (the malformed stream)
 # ------------------------------------------------------------------------------------------------
-EVIL = [b"\x00", b"\r", b"\n", b"\x0c", b"\x0b", b"\t", b" ", b"\x80", b"\xff", b"\xc3\xa9", b">", b"#", b"/", b"//", b"-", b".", b"~", b"*", b"O", b"o",
+EVIL = [b"\x7f", b"\x00", b"\r", b"\n", b"\x0c", b"\x0b", b"\t", b" ", b"\x80", b"\xff", b"\xc3\xa9", b">", b"#", b"/", b"//", b"-", b".", b"~", b"*", b"O", b"o",
         b"#=GC ", b"#=GR ", b"#=GS ", b"#=GF ", b"#=RF ", b"#=CS ", b"#=SS ", b"#=SA ", b"# STOCKHOLM 1.0", b"CLUSTAL", b"0", b"-1", b"99999999999", b"2147483648"]
 
 
@@ -300,7 +300,7 @@ def mutate(rng, data, others=None, nmut=None):
     k = nmut if nmut is not None else rng.choice([1, 1, 1, 2, 3, 5])
     for _ in range(k):
         if not lines: lines = [b""]
-        op = rng.randrange(26)
+        op = rng.randrange(29)
         i = rng.randrange(len(lines))
         ln = lines[i]
         body = ln.rstrip(b"\r\n"); term = ln[len(body):]
@@ -383,6 +383,15 @@ def mutate(rng, data, others=None, nmut=None):
                 j = rng.choice(ann)
                 if rng.random() < 0.5: del lines[j]
                 else: lines.insert(j, lines[j])
+        elif op == 26 and body:                     # NUL / DEL / non-ASCII byte INSIDE the residue (last) field of a line: inmap[0], inmap[127], isascii()
+            p0 = len(body) - len(body.split()[-1]) if body.split() else 0
+            q = rng.randrange(p0, len(body) + 1)
+            lines[i] = body[:q] + rng.choice([b"\x00", b"\x00", b"\x7f", b"\x80", b"\xff", b"\x01", b"\x1f"]) + body[q:] + term
+        elif op == 27:                              # trailing white space on a line (right-to-left scans: rpos, last residue)
+            lines[i] = body + rng.choice([b" ", b"  ", b"\t", b" \t ", b"\x0c", b"\x0b", b" " * 30]) + term
+        elif op == 28:                              # trailing white space on EVERY line
+            ws = rng.choice([b" ", b"\t", b"   "])
+            lines = [(l.rstrip(b"\r\n") + ws + l[len(l.rstrip(b"\r\n")):]) for l in lines]
         elif op == 21 and body:                     # drop the final newline of the file
             lines[-1] = lines[-1].rstrip(b"\r\n")
     return b"".join(lines)
@@ -449,6 +458,87 @@ def block_anomaly(rng, fmt):
     if fmt != "selex": out.append("//")
     nl = rng.choice(["\n", "\n", "\r\n"])
     return (nl.join(out) + nl).encode("latin-1")
+
+
+def alloc_boundary(rng, fmt="stockholm"):
+    """files that sit on the growth boundaries of the readers' arrays: blocks of exactly 16 / 32 lines (blinetype[]/bidx[] and
+    ESL_SELEX_BLOCK of 16), 16 / 17 / 32 / 33 sequences (sqalloc doubling), 16+ / 32+ comment and #=GF lines, many distinct
+    #=GS / #=GC / #=GR tags - optionally with ONE extra / missing line in a later block"""
+    target = rng.choice([15, 16, 17, 31, 32, 33])          # lines per block
+    ngc = rng.choice([0, 1, 2, 5]) if fmt != "selex" else rng.choice([0, 1, 2])
+    ngr = rng.choice([0, 0, 1]) if fmt != "selex" else rng.choice([0, 1])
+    n = max(1, (target - ngc) // (1 + ngr)); ngc = target - n * (1 + ngr)
+    nblk = rng.choice([2, 2, 3]); w = rng.choice([1, 5, 10])
+    a = rand_aln(rng, rng.choice(["amino", "dna"]), n, w * nblk, gapchars="-", lower=False, maxname=8, namechars="abcdefghijklmnopqrstuvwxyz0123456789_")
+    col = lambda chars, k: "".join(rng.choice(chars) for _ in range(k))
+    blocks = []
+    for b in range(nblk):
+        ls = []
+        if fmt == "selex":
+            for t in ["#=RF", "#=CS"][:ngc]: ls.append((t, col("xX.", w)))
+        for i in range(n):
+            ls.append((a.names[i], a.rows[i][b * w:(b + 1) * w]))
+            for k in range(ngr):
+                ls.append((("#=GR %s T%d" % (a.names[i], k)) if fmt != "selex" else "#=SS", col("abc.", w)))
+        if fmt != "selex":
+            for k in range(ngc): ls.append(("#=GC " + ["SS_cons", "RF", "XX", "YY", "ZZ"][k % 5] + ("" if k < 5 else str(k)), col("xyz.", w)))
+        blocks.append(ls)
+    anomaly = rng.randrange(5)
+    b = rng.randrange(1, nblk); ls = blocks[b]
+    if anomaly == 1: ls.append(("#=GC NEW" if fmt != "selex" else "#=RF", col("x.", w)))
+    elif anomaly == 2: ls.append(("#=GR %s NEW" % a.names[-1] if fmt != "selex" else "#=SA", col("x.", w)))
+    elif anomaly == 3: ls.append(("extra" , col("ACGT", w)))
+    elif anomaly == 4 and len(ls) > 1: del ls[rng.randrange(len(ls))]
+    wn = max(len(h) for bl in blocks for h, _ in bl) + 2
+    out = []
+    if fmt != "selex":
+        out.append("# STOCKHOLM 1.0")
+        for k in range(rng.choice([0, 15, 16, 17, 32, 33, 70])): out.append("# comment %d" % k)
+        for k in range(rng.choice([0, 15, 16, 17, 33])): out.append("#=GF CC line %d" % k)
+        for k in range(rng.choice([0, 1, 9, 17])): out.append("#=GS %s T%d value" % (rng.choice(a.names), k))
+    for bi, bl in enumerate(blocks):
+        if bi or fmt != "selex": out.append("")
+        for h, t in bl: out.append(h.ljust(wn) + t)
+    if fmt != "selex": out.append("//")
+    return ("\n".join(out) + "\n").encode("latin-1")
+
+
+def odd_byte_in_residues(rng, fmt):
+    """a small valid file of the format with ONE NUL / DEL / control / non-ASCII byte inside the residue text of a sequence line
+    (input maps: inmap[0] is the replacement symbol, the tables are filled for 1..127, bytes >= 0x80 go through isascii())"""
+    data, _ = valid_file(rng, fmt, small=True)
+    lines = split_lines(data)
+    cand = [i for i, l in enumerate(lines) if l.strip() and not l.lstrip().startswith((b"#", b">", b"//", b"CLUSTAL", b"MUSCLE")) and len(l.split()) >= 1 and i > 0]
+    if fmt in ("afa", "a2m"): cand = [i for i, l in enumerate(lines) if l.strip() and not l.startswith(b">")]
+    if not cand: return data
+    i = rng.choice(cand); body = lines[i].rstrip(b"\r\n"); term = lines[i][len(body):]
+    field = body.split()[-1]; p0 = len(body) - len(field)
+    q = rng.randrange(p0, len(body) + 1) if rng.random() < 0.8 else len(body)
+    lines[i] = body[:q] + rng.choice([b"\x00", b"\x00", b"\x7f", b"\x7f", b"\x80", b"\x01"]) + body[q:] + term
+    return b"".join(lines)
+
+
+def earlystop_file(rng, fmt, T, exact=False):
+    """alphabet guessing stops early once more than T (500 / 5000 / 50000) residues have been counted on whole lines: the first lines hold
+    exactly T+1 (or T) DNA residues with all of A,C,G,T, everything after is protein-only text - the guess must not depend on it"""
+    first = T + (1 if exact else rng.choice([1, 1, 0, 2]))
+    w = 50
+    dna = [rng.choice("ACGT") for _ in range(first)]
+    dna[:4] = list("ACGT")
+    lines = ["".join(dna[k:k + w]) for k in range(0, first, w)]
+    prot = ["".join(rng.choice("EFILPQ") for _ in range(w)) for _ in range(rng.choice([3, 12]))]
+    allres = lines + prot
+    if fmt in ("afa", "a2m"):
+        body = [">s0"] + lines + [">s1"] + prot
+    elif fmt in ("stockholm", "pfam"):
+        body = ["# STOCKHOLM 1.0"] + ["s%d  %s" % (k, r) for k, r in enumerate(allres)] + ["//"]
+    elif fmt in ("clustal", "clustallike"):
+        body = ["CLUSTAL W (1.83) multiple sequence alignment", ""] + ["s%d  %s" % (k, r) for k, r in enumerate(allres)] + [""]
+    elif fmt in ("phylip", "phylips"):
+        body = [" %d %d" % (len(allres), w)] + [("s%d" % k).ljust(10) + r for k, r in enumerate(allres)]
+    else:
+        body = ["s%d  %s" % (k, r) for k, r in enumerate(allres)]
+    return ("\n".join(body) + "\n").encode("latin-1")
 
 
 def raw_bytes(rng):
